@@ -29,7 +29,7 @@ fn synthetic(ctx: &Ctx) -> Vec<Base> {
                     continue;
                 }
                 let dp = if dynp { Some(DynamicParams::from((0..340usize).map(|i| i % 7).collect::<Vec<_>>())) } else { None };
-                let p = crate::refm::pubin::make_public_input(
+                let p = crate::refm::make_public_input(
                     fu(10), fu(3), fu(900), fu(0x726563), dp.as_ref().map(|d| serde_json::to_value(d).unwrap()),
                     &[(fu(1), fu(5)), (fu(20), fu(30))], (fu(1), r.felt()),
                     &pg.iter().map(|c| (c.address, c.value)).collect::<Vec<_>>(),
